@@ -36,6 +36,10 @@ import (
 
 var c17Deadline = 3 * time.Second * slowFactor()
 
+// c17OwnWait: how long a parked Acquire may take to return after its own context was cancelled
+// (mode ownctx); it has nothing to wait for.
+var c17OwnWait = 400 * time.Millisecond * slowFactor()
+
 // ---------------------------------------------------------------- recorder
 
 type c17Recorder struct {
@@ -506,13 +510,15 @@ type c17SemaObs struct {
 	panicked      bool
 	panicMsg      string
 	overlap       bool
+	ownLate       bool // mode ownctx: a waiter did not return after its own context was cancelled
 }
 
 type c17SemaRun struct {
 	c       c17SemaCase
 	sem     *syncutil.ChanSemaphore
 	rec     *c17Recorder
-	ctxs    [2]context.Context
+	ctxs    []context.Context
+	ownLate atomic.Bool
 	cancel  context.CancelFunc
 	holders atomic.Int64
 	maxH    atomic.Int64
@@ -581,7 +587,7 @@ func (r *c17SemaRun) doCancel() {
 }
 
 func runC17Sema(c c17SemaCase, rec *c17Recorder) c17SemaObs {
-	r := &c17SemaRun{c: c, sem: syncutil.NewChanSemaphore(uint(c.cap)), rec: rec}
+	r := &c17SemaRun{c: c, sem: syncutil.NewChanSemaphore(uint(c.cap)), rec: rec, ctxs: make([]context.Context, 2+c.n)}
 	r.ctxs[0] = context.Background()
 	// the cancellable context carries a cause: Acquire must return ctx.Err(), not the cause
 	ctx1, cancelCause := context.WithCancelCause(context.Background())
@@ -734,6 +740,36 @@ func runC17Sema(c c17SemaCase, rec *c17Recorder) c17SemaObs {
 			r.doCancel()
 			waitDone()
 			drain()
+		case "ownctx":
+			// every waiter has a context of its own (2+t); with the semaphore full they arrive
+			// one after the other and are cancelled one at a time, the latest arrival first:
+			// each returns when ITS context is done, whoever else is still waiting
+			cancels := make([]context.CancelFunc, c.n)
+			for t := 0; t < c.n; t++ {
+				r.ctxs[2+t], cancels[t] = context.WithCancel(context.Background())
+				defer cancels[t]()
+			}
+			fill()
+			for t := 0; t < c.n; t++ {
+				worker(t, false, rounds(t, 2+t, 1))
+				for r.issued.Load() < int64(c.cap+t+1) {
+					runtime.Gosched()
+				}
+				time.Sleep(time.Duration(50+rng.IntN(100)) * time.Microsecond) // let it park
+			}
+			for t := c.n - 1; t >= 0; t-- {
+				r.rec.log("N%d", 2+t)
+				cancels[t]()
+				dl := time.Now().Add(c17OwnWait)
+				for r.errN.Load() < int64(c.n-t) && time.Now().Before(dl) {
+					time.Sleep(20 * time.Microsecond)
+				}
+				if r.errN.Load() < int64(c.n-t) {
+					r.ownLate.Store(true)
+				}
+			}
+			waitDone()
+			drain()
 		case "idlerel":
 			for i := 0; i < c.rounds; i++ {
 				r.release(main, false)
@@ -757,6 +793,7 @@ func runC17Sema(c c17SemaCase, rec *c17Recorder) c17SemaObs {
 	r.o.maxHolders = r.maxH.Load()
 	r.o.errNotDone, r.o.errWrong = r.notDone.Load(), r.wrong.Load()
 	r.o.overlap = r.overl.Load()
+	r.o.ownLate = r.ownLate.Load()
 	return r.o
 }
 
@@ -804,6 +841,10 @@ func evalC17SemaRun(c c17SemaCase) Result {
 		direct = fail("err-not-ctx-err", "%d Acquire calls returned an error that is not the context's error", o.errWrong)
 	case o.stuck:
 		direct = fail("sema-stuck", "mode %s: an Acquire that had to return or a Release did not return within %v", c.mode, c17Deadline)
+	case o.ownLate:
+		direct = fail("own-cancel-late", "semaphore full, %d waiters with a context each: a waiter did not return within %v of the cancellation of its own context while waiters that arrived before it were still parked", c.n, c17OwnWait)
+	case c.mode == "ownctx" && (o.err != int64(c.n) || o.ok != int64(c.cap)):
+		direct = fail("full-done-must-err", "ok=%d err=%d, want ok=%d err=%d: every waiter's context cancelled while no slot free", o.ok, o.err, c.cap, c.n)
 	case c.mode == "plain" && (o.ok != calls || o.err != 0):
 		direct = fail("plain-counts", "ok=%d err=%d, want ok=%d err=0 (no context was ever done)", o.ok, o.err, calls)
 	case c.mode == "fullpre" && (o.err != calls || o.ok != int64(c.cap)):
@@ -828,6 +869,9 @@ func evalC17SemaRun(c c17SemaCase) Result {
 	}
 	if c.mode == "lastslot" && c.n >= 2 {
 		class = "sema-lastslot"
+	}
+	if c.mode == "ownctx" {
+		class = "sema-ownctx"
 	}
 	return Result{Impl: impl, Direct: direct, Class: class}
 }
@@ -1025,7 +1069,7 @@ func genC17OnceCase(rng *rand.Rand, big bool) c17OnceCase {
 
 func genC17SemaCase(rng *rand.Rand) c17SemaCase {
 	c := c17SemaCase{seed: rng.Uint64N(1 << 32)}
-	c.mode = pick(rng, "plain", "plain", "fullpre", "fulllate", "freepre", "mixed", "mixed", "idlerel", "xrel", "xrel", "lastslot", "lastslot", "lastslot")
+	c.mode = pick(rng, "plain", "plain", "fullpre", "fulllate", "freepre", "mixed", "mixed", "idlerel", "xrel", "xrel", "lastslot", "lastslot", "lastslot", "ownctx", "ownctx")
 	c.cap = pick(rng, 0, 1, 1, 2, 3, 5, 8)
 	c.n = pick(rng, 1, 2, 3, 4, 8, 16)
 	c.rounds = pick(rng, 1, 2, 3, 5, 10)
@@ -1041,6 +1085,11 @@ func genC17SemaCase(rng *rand.Rand) c17SemaCase {
 	if c.mode == "lastslot" {
 		c.n = pick(rng, 2, 3, 4, 8, 8)
 		c.cap = pick(rng, 1, 1, 1, 2, 3)
+		c.rounds = 1
+	}
+	if c.mode == "ownctx" {
+		c.n = pick(rng, 2, 3, 4, 8)
+		c.cap = pick(rng, 0, 1, 1, 2, 3)
 		c.rounds = 1
 	}
 	if c.mode == "xrel" {
@@ -1072,7 +1121,7 @@ func genC17(rng *rand.Rand, tier string) (cases []string) {
 	}
 	for i := 0; i < nHist; i++ {
 		c := genC17SemaCase(rng)
-		if c.mode == "idlerel" || c.mode == "xrel" || c.mode == "lastslot" { // Release by a non-holder: outside the disciplined acceptor
+		if c.mode == "idlerel" || c.mode == "xrel" || c.mode == "lastslot" || c.mode == "ownctx" { // Release by a non-holder / more than two contexts: outside the disciplined acceptor
 			c.mode = "fulllate"
 			c.n, c.rounds = 3, 1
 		}
